@@ -407,10 +407,22 @@ pub fn run_c16(ctx: &Ctx) -> Report {
         let types = param_types();
         let nexec = if ctx.miri { 4 } else { rng.range(2, 14) };
         let mut pattern = String::new();
+        let mut closed = [false; 3];
         for _ in 0..nexec {
             let k = rng.usize(3);
+            // now and then a statement is closed (the others stay open and keep their types); it is
+            // prepared again before its next use
+            if !closed[k] && rng.chance(1, 10) {
+                cv.push(MCmd::Close(ids[k]), None);
+                closed[k] = true;
+                bound[k] = None;
+                pattern.push_str(&format!("{}C ", k));
+                rep.counters.inc("closes_between_executions");
+                continue;
+            }
             // occasionally re-prepare: the first execution afterwards must rebind
-            if rng.chance(1, 12) {
+            if closed[k] || rng.chance(1, 12) {
+                closed[k] = false;
                 cv.push(MCmd::Prepare(b"again".to_vec()), Some(Script::PrepOk { id: ids[k], params: param_cols(counts[k]), cols: vec![] }));
                 bound[k] = None;
                 pattern.push_str(&format!("{}P ", k));
